@@ -419,6 +419,8 @@ impl KeyValueStore {
             // Writers leave the wait list in the order they were given their sequence numbers, so
             // every write up to and including this one is now complete: publish it to readers.
             state.visible_seq_no = seq_no;
+            #[cfg(blue_verif)]
+            verif_events::event("w_publish", seq_no, state.visible_seq_no, 0);
         }
         drop(wait_guard);
         #[cfg(blue_verif)]
